@@ -70,6 +70,9 @@ def main(tier, seed):
                                        ops=base + [('close',)] + ops_of_steps(local_rest) + [('idle',)] * 3))
             # peer silent from here on: ARTIM
             silent_cases.append(dict(label=[name, 'silence_after_step', k], acceptor=acceptor, ops=base + SILENCE_TAIL))
+            # the peer trickles bytes instead of being silent: ARTIM must not be re-armed by them
+            silent_cases.append(dict(label=[name, 'trickle_after_step', k], acceptor=acceptor,
+                                     ops=base + [('idle',), ('tick', 6), ('seg', b'\x04\x00\x00'), ('idle',), ('tick', 6)] + [('idle',)] * 3))
             # stop requested at this quiescent point
             stop_cases.append(dict(label=[name, 'kill_after_step', k], acceptor=acceptor, ops=base + [('kill',)]))
             # peer disconnects after every byte prefix of its next PDU
